@@ -15,8 +15,11 @@ FIXED = True      # awake schedule: a bias/variable with factor n is asleep at a
 EFIX = True       # energy of a bias that applies no force is not reported to the engine
 
 
+_SCALE = [1.0]     # magnitude of the forces/energies of the scenario being compared (force constants scaled by 2^-27 .. 2^27)
+
+
 def close(a, b, tol=TOL):
-    return abs(a - b) <= tol * max(1.0, abs(a), abs(b))
+    return abs(a - b) <= tol * max(_SCALE[0], abs(a), abs(b))
 
 
 def hx(x):
@@ -140,6 +143,17 @@ def scenario_lines(sc, subset, tag):
         elif ev[0] == "X":
             if ev[1] in subset:
                 L.append("script cv bias b%d set active %s" % (ev[1], "on" if ev[2] else "off"))
+        elif ev[0] == "Y":      # run-time switch of a feature the configuration fixed: apply_force of a bias
+            if ev[1] in subset:
+                L.append("script cv bias b%d set apply_force %s" % (ev[1], "on" if ev[2] else "off"))
+        elif ev[0] == "D":      # the bias is deleted in the middle of the run
+            if ev[1] in subset:
+                L.append("script cv bias b%d delete" % ev[1])
+        elif ev[0] == "Z":      # the job ends: state saved (text or binary), new process-like instance, same configuration, state loaded
+            f = "c08_%s.state" % tag.replace(":", "_")
+            L += ["save %s %s" % (ev[1], f), "fresh", "forcecmd clear", "config EOF"] + config_text(sc, subset, scripted, reverse=(tag.split(":")[-1] == "P")) + ["EOF", "load %s" % f]
+        elif ev[0] == "C" and not tag.split(":")[-1].startswith("N"):      # a configuration that is rejected (harmonic restraint without centers) in the middle of the session
+            L += ["config EOF", "harmonic {", "  name rejected%d" % ev[1], "  colvars v0", "  forceConstant 2.0", "}", "EOF"]
     L.append("echo END %s" % tag)
     return L
 
@@ -184,6 +198,26 @@ def var_value(cs):
 
 # ------------------------------------------------------------------ scenario -> model case
 def model_case(sc, subset, fixed=FIXED, efix=EFIX):
+    """one RUN line; a scenario with a restart ("Z") is a list of segments joined by " @@ ": each segment is a fresh run of the
+    model whose first step is the step at which the state was saved (the restraints in this family carry no state)"""
+    if any(ev[0] == "Z" for ev in sc["events"]):
+        segs, cur, it, first = [], [], sc["it0"], True
+        starts = [sc["it0"]]
+        for ev in sc["events"]:
+            if ev[0] == "Z":
+                segs.append(cur); cur = []; starts.append(it); first = True
+            else:
+                cur.append(ev)
+                if ev[0] == "S":
+                    it = it if first else it + 1
+                if ev[0] in ("S", "R"):
+                    first = False
+        segs.append(cur)
+        lines = []
+        for st0, evs_ in zip(starts, segs):
+            sc2 = dict(sc); sc2["events"] = evs_; sc2["it0"] = st0
+            lines.append(model_case(sc2, subset, fixed, efix))
+        return " @@ ".join(lines)
     p = ["RUN", "1" if fixed else "0", "1" if efix else "0", str(sc["natoms"]), str(sc["it0"]), str(len(sc["vars"]))]
     p += [str(v["tsf"]) for v in sc["vars"]]
     p.append(str(len(subset)))
@@ -202,7 +236,7 @@ def model_case(sc, subset, fixed=FIXED, efix=EFIX):
             p += ["C", hx(b.get("e", 0.0))]
         g = b.get("grid")
         p += (["S", hx(g["lo"]), hx(g["w"]), str(len(g["vals"]))] + [hx(x) for x in g["vals"]]) if g else ["N"]
-    evs = [ev for ev in sc["events"] if ev[0] in ("S", "R") or ev[1] in subset]
+    evs = [ev for ev in sc["events"] if ev[0] in ("S", "R") or (ev[0] in ("X", "Y") and ev[1] in subset)]
     p.append(str(len(evs)))
     for ev in evs:
         if ev[0] in ("S", "R"):
@@ -214,7 +248,7 @@ def model_case(sc, subset, fixed=FIXED, efix=EFIX):
                     for a, g in c["grads"]:
                         p += [str(a), hx(g[0]), hx(g[1]), hx(g[2])]
         else:
-            p += ["X", str(ev[1]), "1" if ev[2] else "0"]
+            p += [ev[0], str(ev[1]), "1" if ev[2] else "0"]
     return " ".join(p)
 
 
@@ -249,7 +283,7 @@ def parse_model_line(line, natoms):
                 f = t.split(",")
                 o["B"].append({"act": int(f[0]), "rc": int(f[1]), "awake": int(f[2]), "E": hf(f[3]),
                                "F": [] if f[4] == "-" else [hf(x) for x in f[4].split(":")],
-                               "REF": None if f[5] == "-" else hf(f[5])})
+                               "REF": None if f[5] == "-" else hf(f[5]), "apply": int(f[6]) if len(f) > 6 else None})
         if d["A"] != "-":
             for t in d["A"].split("|"):
                 o["A"].append([hf(x) for x in t.split(",")])
@@ -273,7 +307,10 @@ def parse_impl(lines):
             cur["complete"] = True
             cur = None
         elif l.startswith("CONFIG"):
-            cur["config"] = l
+            if cur["config"] is None:
+                cur["config"] = l
+            else:
+                cur.setdefault("config_later", []).append(l)
         elif l.startswith("SCRIPT"):
             cur["script"].append(l)
             if st is not None and "result=" in l and "getE" not in st:
@@ -354,7 +391,7 @@ def gen_scenario(r, k, family="mix"):
     nv = r.randint(1, 3)
     vars_ = []
     for i in range(nv):
-        ncomp = 1 if r.random() < 0.7 else 2
+        ncomp = r.choice([1, 1, 1, 1, 1, 1, 2, 2, 3])     # >= 3 components with the odd one (exponent) in the middle
         comps = []
         for _ in range(ncomp):
             if pairs and r.random() < 0.4:
@@ -401,6 +438,8 @@ def gen_scenario(r, k, family="mix"):
         if family == "mix" and s > 0 and r.random() < 0.12:
             j = r.randrange(nb)
             events.append(("X", j, r.random() < 0.4))
+        if family == "mix" and s > 0 and r.random() < 0.05:
+            events.append(("C", len(events)))
         typ = "R" if (family == "mix" and s > 0 and r.random() < 0.08) else "S"
         events.append((typ, [list(p) for p in pos]))
     # partition of the bias list into A and B (order preserved)
@@ -412,8 +451,14 @@ def gen_scenario(r, k, family="mix"):
             m[r.randrange(nb)] = not m[0]
         A = [j for j in range(nb) if m[j]]
         B = [j for j in range(nb) if not m[j]]
+    kscale = 1.0
+    if family in ("mix", "impulse") and r.random() < 0.12:
+        # data 1e-8 .. 1e8 times the usual size (exact powers of two): every force constant is scaled, comparisons are relative to the scale
+        kscale = 2.0 ** r.choice([-27, -13, 13, 27])
+        for b in biases:
+            b["k"] = b["k"] * kscale
     return {"id": k, "family": family, "natoms": natoms, "mass": mass, "vars": vars_, "biases": biases, "it0": it0,
-            "events": events, "A": A, "B": B, "perm_run": family == "mix" and r.random() < 0.4}
+            "events": events, "A": A, "B": B, "perm_run": family == "mix" and r.random() < 0.4, "kscale": kscale}
 
 
 # ------------------------------------------------------------------ python specification of the property
@@ -423,6 +468,8 @@ def spec_run(sc, subset):
     has not disabled it and the step is a multiple of its factor; it is evaluated only then (ABMD's reference
     moves only then) and applies factor * F.  Variable-level factors are not applied here (see oracle O4)."""
     user = {j: True for j in subset}
+    uapply = {j: True for j in subset}
+    deleted = set()
     abmd = {j: None for j in subset}
     it = sc["it0"]
     first = True
@@ -431,6 +478,20 @@ def spec_run(sc, subset):
         if ev[0] == "X":
             if ev[1] in user:
                 user[ev[1]] = bool(ev[2])
+            continue
+        if ev[0] == "Y":
+            if ev[1] in uapply:
+                uapply[ev[1]] = bool(ev[2])
+            continue
+        if ev[0] == "D":
+            deleted.add(ev[1])
+            continue
+        if ev[0] == "C":
+            continue            # a rejected configuration changes nothing
+        if ev[0] == "Z":
+            first = True        # the new job repeats the step at which the state was saved
+            user = {j: True for j in subset}
+            uapply = {j: True for j in subset}
             continue
         if ev[0] == "S":
             if not first:
@@ -443,8 +504,8 @@ def spec_run(sc, subset):
         per = {}
         for j in subset:
             b = sc["biases"][j]
-            contributing = user[j] and (it % b["tsf"] == 0)
-            per[j] = {"contributing": contributing}
+            contributing = user[j] and (it % b["tsf"] == 0) and j not in deleted
+            per[j] = {"contributing": contributing, "deleted": j in deleted}
             if not contributing:
                 continue
             k = fr(b["k"])
@@ -486,7 +547,7 @@ def spec_run(sc, subset):
                 per[j]["fac"] = fac
             per[j]["E"] = e
             per[j]["F"] = Fs
-            applies = b["kind"] not in ("G", "F")
+            applies = b["kind"] not in ("G", "F") and uapply[j]
             if applies:
                 E += e
                 for n, i in enumerate(b["vars"]):
@@ -534,8 +595,8 @@ def compare_model(run, sc, tag, subset, msteps, isteps):
             if iv["act"] and not close(mv["x"], iv["x"]):
                 run.mismatch("pipeline:var-value", dict(where, var=i), iv["x"], mv["x"])
         for q, (mb, ib) in enumerate(zip(m["B"], im["B"])):
-            if ib["apply"] != (0 if sc["biases"][subset[q]]["kind"] in ("G", "F") else 1):
-                run.mismatch("pipeline:bias-apply", dict(where, bias=subset[q]), ib["apply"], "per kind")
+            if mb.get("apply") is not None and ib["apply"] != mb["apply"]:
+                run.mismatch("pipeline:bias-apply", dict(where, bias=subset[q]), ib["apply"], mb["apply"])
             for key in ("act", "rc", "awake"):
                 if mb[key] != ib[key]:
                     run.mismatch("pipeline:bias-deps", dict(where, bias=subset[q], field=key), ib[key], mb[key])
@@ -610,9 +671,14 @@ def oracle_spec(run, sc, tag, subset, isteps):
     for s in range(n):
         sp, im = spec[s], isteps[s]
         # classification of a disagreement by the activity flags of the biases
+        byname = {bb["name"]: bb for bb in im["B"]}
         for q, j in enumerate(subset):
             b = sc["biases"][j]
-            act = im["B"][q]["act"] if q < len(im["B"]) else None
+            act = byname["b%d" % j]["act"] if ("b%d" % j) in byname else None
+            if sp["per"][j].get("deleted") and act is not None:
+                run.violation("pipeline:deleted:still-there", "scenario %d run %s step %d: bias b%d was deleted but is still listed" % (sc["id"], tag, s, j),
+                              replay_of(sc, {tag: subset}, {"step_index": s, "bias": j}))
+                return
             want = sp["per"][j]["contributing"]
             if act is not None and bool(act) != want:
                 disabled = not user_enabled_at(sc, j, s)
@@ -644,16 +710,32 @@ def oracle_spec(run, sc, tag, subset, isteps):
                           replay_of(sc, {tag: subset}, {"step_index": s}))
             return
         # evaluated only when contributing: a sleeping/disabled bias keeps the energy and forces of its last evaluation
-        if s > 0:
+        if s > 0 and s not in first_after_restart(sc):
+            prevname = {bb["name"]: bb for bb in isteps[s - 1]["B"]}
             for q, j in enumerate(subset):
-                if not sp["per"][j]["contributing"] and q < len(im["B"]) and q < len(isteps[s - 1]["B"]):
-                    if im["B"][q]["E"] != isteps[s - 1]["B"][q]["E"] or im["B"][q]["F"] != isteps[s - 1]["B"][q]["F"] \
-                       or im["B"][q]["REF"] != isteps[s - 1]["B"][q]["REF"]:
+                nm = "b%d" % j
+                if not sp["per"][j]["contributing"] and nm in byname and nm in prevname:
+                    if byname[nm]["E"] != prevname[nm]["E"] or byname[nm]["F"] != prevname[nm]["F"] \
+                       or byname[nm]["REF"] != prevname[nm]["REF"]:
                         run.violation("pipeline:schedule:evaluated-off-multiple",
                                       "scenario %d run %s step %d (it=%d): bias b%d (factor %d) changed its energy/forces/state at a step where it must not be evaluated"
                                       % (sc["id"], tag, s, im["it"], j, sc["biases"][j]["tsf"]),
                                       replay_of(sc, {tag: subset}, {"step_index": s, "bias": j}))
                         return
+
+
+def first_after_restart(sc):
+    """indices of the calc() calls that are the first of a new job (objects are new: nothing is kept from before)"""
+    out, c, z = set(), -1, False
+    for ev in sc["events"]:
+        if ev[0] == "Z":
+            z = True
+        elif ev[0] in ("S", "R"):
+            c += 1
+            if z:
+                out.add(c)
+                z = False
+    return out
 
 
 def user_enabled_at(sc, j, s):
@@ -664,7 +746,7 @@ def user_enabled_at(sc, j, s):
         if ev[0] == "X":
             if ev[1] == j:
                 en = bool(ev[2])
-        else:
+        elif ev[0] in ("S", "R"):
             c += 1
             if c == s:
                 return en
@@ -731,7 +813,7 @@ def oracle_errors(run, sc, tag, subset, isteps):
                 if ev[0] == "X":
                     if ev[1] in subset and sc["biases"][ev[1]]["tsf"] > 1:
                         touched.add(ev[1])
-                else:
+                elif ev[0] in ("S", "R"):
                     c += 1
                     if c == s:
                         break
@@ -753,6 +835,21 @@ def oracle_getenergy(run, sc, tag, subset, isteps):
         if "getE" in im and im["E"] is not None and not close(im["getE"], im["E"], 2e-5):
             run.violation("pipeline:getenergy", "scenario %d run %s step %d (it=%d): cv getenergy returns %r, the energy added to the engine was %r"
                           % (sc["id"], tag, s, im["it"], im["getE"], im["E"]), replay_of(sc, {tag: subset}, {"step_index": s}))
+            return
+
+
+def oracle_rejected(run, sc, R, t0):
+    """O14: a rejected configuration in the middle of the session changes nothing: the run with the attempts equals the run
+    without them in every dumped field (feature flags and reference counts of variables and biases, values, forces, energy)"""
+    sAB, sN = R[t0]["steps"], R["N" + t0]["steps"]
+    AB = sc["_subsets"][t0]
+    for s in range(min(first_error(sAB), first_error(sN))):
+        a, b = sAB[s], sN[s]
+        same = a["V"] == b["V"] and a["B"] == b["B"] and a["A"] == b["A"] and a["E"] == b["E"]
+        if not same:
+            diff = [(x["name"], k_) for x, y in zip(a["V"] + a["B"], b["V"] + b["B"]) for k_ in x if x.get(k_) != y.get(k_)][:4]
+            run.violation("pipeline:rejected-config", "scenario %d step %d (it=%d): after a rejected bias configuration the state differs from the run without the attempt: %s"
+                          % (sc["id"], s, a["it"], diff), replay_of(sc, {t0: AB, "N" + t0: AB}, {"step_index": s}))
             return
 
 
@@ -1062,6 +1159,60 @@ def oracle_vector(run, sc, tag, subset, isteps):
             return
 
 
+def toggle_scenario(r, k):
+    """run-time changes of what the configuration fixed: `cv bias b set apply_force off|on` for a few steps, `cv bias b set
+    active off|on`, `cv bias b delete` in the middle of the run, a rejected configuration; 2-3 applying biases sharing 1-2 variables.
+    The pipeline model has apply_force as a constant and no deletion: this family is checked by the python specification (O2),
+    superposition (O1), impulse windows, errors - not by the model."""
+    sc = gen_scenario(r, k, "mix")
+    sc["family"] = "toggle"
+    sc["perm_run"] = False
+    nb = len(sc["biases"])
+    for b in sc["biases"]:
+        if b["kind"] == "G":
+            b["kind"] = "H"
+            b["centers"] = [dy(r, -4, 4, 2) for _ in b["vars"]]
+        b["tsf"] = r.choice([1, 1, 1, 2, 3])     # script-switched biases with factor > 1: the known finding is left to the mix family
+    ev = []
+    deleted = set()
+    with_delete = r.random() < 0.4        # without deletions the scenario is also compared with the model
+    for e in sc["events"]:
+        if e[0] == "X":
+            continue
+        if e[0] in ("S", "R") and ev and r.random() < 0.3:
+            j = r.randrange(nb)
+            if j not in deleted:
+                m = r.random()
+                if m < 0.55:
+                    ev.append(("Y", j, r.random() < 0.5))
+                elif m < 0.8 and sc["biases"][j]["tsf"] == 1:
+                    ev.append(("X", j, r.random() < 0.5))
+                elif m < 0.9 and len(deleted) + 1 < nb and with_delete:
+                    ev.append(("D", j))
+                    deleted.add(j)
+        ev.append(e)
+    sc["events"] = ev
+    return sc
+
+
+def restart_scenario(r, k):
+    """the run is split in two jobs: state saved (text or binary), fresh instance with the same configuration, state loaded; the
+    first step of the second job is the step of the save, mostly NOT a multiple of the factors; stateless restraints only"""
+    sc = gen_scenario(r, k, "mix")
+    sc["family"] = "restart"
+    sc["perm_run"] = False
+    for b in sc["biases"]:
+        if b["kind"] in ("A", "G"):
+            b["kind"] = r.choice(["H", "L", "W"])
+            b["centers"] = [dy(r, -4, 4, 2) for _ in b["vars"]]
+    evs = [e for e in sc["events"] if e[0] in ("S", "R")]
+    cut = r.randint(2, max(2, len(evs) - 2))
+    # the new job starts from the saved configuration: its first calc() repeats the step and the positions of the save
+    rest = [("S", [list(p_) for p_ in evs[cut - 1][1]])] + evs[cut:]
+    sc["events"] = evs[:cut] + [("Z", r.choice(["text", "binary"]))] + rest
+    return sc
+
+
 def coupling_scenario(r, k):
     """lagged engine forces that include the Colvars forces, a one-atom distanceZ variable with subtractAppliedForce and
     outputTotalForce, two restraints: the total force reported at step t+1 must be the engine's own force of step t,
@@ -1131,15 +1282,20 @@ def run_batch(unit, model, scs, d):
             subsets["0"] = []
         if sc.get("force_B"):
             subsets = {"AB": AB, "A": sc["A"], "B": []}
+        if any(ev[0] == "C" for ev in sc["events"]) and sc["family"] == "mix":
+            for t0 in list(subsets):  # the same runs without the rejected configuration attempts
+                subsets["N" + t0] = subsets[t0]
         if sc.get("perm_run") and len(AB) >= 2:
             subsets["P"] = AB          # the same biases, written in the reverse order in the configuration
         sc["_subsets"] = subsets
         for t, sub in subsets.items():
             tag = "%d:%s" % (sc["id"], t)
             L += scenario_lines(sc, sub, tag)
-            if all(sc["biases"][j]["kind"] not in ("F", "FA") for j in sub) and sc["family"] not in ("ext", "scripted", "vector") and t != "P":
-                M.append(model_case(sc, sub))
-                keys.append(tag)
+            if all(sc["biases"][j]["kind"] not in ("F", "FA") for j in sub) and sc["family"] not in ("ext", "scripted", "vector") and t != "P" and not t.startswith("N") \
+               and not any(ev[0] == "D" for ev in sc["events"]):
+                for q_, seg in enumerate(model_case(sc, sub).split(" @@ ")):
+                    M.append(seg)
+                    keys.append((tag, q_))
     for sc in scs:
         for j, b in enumerate(sc["biases"]):
             if b.get("grid"):
@@ -1152,8 +1308,8 @@ def run_batch(unit, model, scs, d):
     impl = parse_impl(out)
     rc2, mout, err2 = V.run_lines(model, M, timeout=1200)
     mod = {}
-    for kx, line in zip(keys, mout):
-        mod[kx] = line
+    for (kx, q_), line in zip(keys, mout):
+        mod[kx] = line if q_ == 0 else (mod[kx] + " ; " + line if mod[kx].strip() and line.strip() else mod[kx] + line)
     return impl, mod, (rc, err[-300:] if err else "")
 
 
@@ -1199,6 +1355,12 @@ def check(run):
     for _ in range(10 if quick else 300):
         scs.append(vector_scenario(r, k))
         k += 1
+    for _ in range(24 if quick else 600):
+        scs.append(toggle_scenario(r, k))
+        k += 1
+    for _ in range(16 if quick else 400):
+        scs.append(restart_scenario(r, k))
+        k += 1
     for _ in range(12 if quick else 300):
         scs.append(ext_scenario(r, k))
         k += 1
@@ -1219,6 +1381,7 @@ def check(run):
         impl, mod, (rc, err) = run_batch(unit, model, batch, d)
         for sc in batch:
             subsets = sc["_subsets"]
+            _SCALE[0] = sc.get("kscale", 1.0)
             R = {}
             ok = True
             for t, sub in subsets.items():
@@ -1237,10 +1400,10 @@ def check(run):
             for t, sub in subsets.items():
                 tag = "%d:%s" % (sc["id"], t)
                 isteps = R[t]["steps"]
-                if t == "P":
+                if t == "P" or t.startswith("N"):
                     continue
                 sub = impl_order(sc, sub)
-                if any([b["name"] for b in stp["B"]] != ["b%d" % j for j in sub] for stp in isteps):
+                if sc["family"] != "toggle" and any([b["name"] for b in stp["B"]] != ["b%d" % j for j in sub] for stp in isteps):
                     run.mismatch("pipeline:bias-order", {"scenario": sc["id"], "run": t}, [b["name"] for b in isteps[0]["B"]], sub)
                     continue
                 run.dist("family:" + sc["family"])
@@ -1261,6 +1424,9 @@ def check(run):
                     nontriv = True
             if "P" in R:
                 oracle_order(run, sc, R)
+            for t0 in ("AB", "A", "B"):
+                if "N" + t0 in R and t0 in R:
+                    oracle_rejected(run, sc, R, t0)
             if "AB" in R:
                 if sc["family"] == "scripted":
                     oracle_scripted(run, sc, R)
